@@ -211,8 +211,9 @@ pub fn run(tier: Tier) -> i32 {
     // the whole thorough alphabet costs a few seconds: both tiers run it
     let quick = false;
     let _ = ctx.quick();
-    ctx.set_rule("case = one delivery to a transport-mode read: the peer's genuine message altered by every single-bit flip, every truncation length, extensions, all-zero / all-ones strings, reflection to its own sender, the corresponding message of a parallel session with the same static keys, a handshake message, and (stateless) the genuine message under every other nonce of a 80-value boundary alphabet; stateful and stateless, both directions, 38 patterns + psk variants x 3 ciphers x 2 backends; oracle: Ok iff unaltered message of this session, direction, key and nonce. non-trivial = the delivery was rejected as required");
-    let mut cases: Vec<(Proto, Backend, bool, usize, usize)> = vec![];
+    ctx.set_rule("case = one delivery to a transport-mode read: the peer's genuine message altered by every single-bit flip, every truncation length, extensions, all-zero / all-ones strings, reflection to its own sender, the corresponding message of a parallel session with the same static keys, a handshake message, and (stateless) the genuine message under every other nonce of a 80-value boundary alphabet; stateful and stateless, both directions, 38 patterns + psk variants x 3 ciphers x 2 backends, output buffers comfortably large and (un-modified patterns) exactly payload-sized / payload + 9; oracle: Ok iff unaltered message of this session, direction, key and nonce. non-trivial = the delivery was rejected as required");
+    // last element: output buffers of the reads - 0 comfortably large, 1 exactly the payload size, 2 payload size + 9
+    let mut cases: Vec<(Proto, Backend, bool, usize, usize, u8)> = vec![];
     let base = patterns::base_patterns();
     for (c, b) in cipher_backends() {
         for (k, bp) in base.iter().enumerate() {
@@ -222,23 +223,37 @@ pub fn run(tier: Tier) -> i32 {
                 protos.push(Proto::new(bp, &[], DhAlg::P256, c, h).unwrap());
                 protos.push(Proto::new(bp, &[0, bp.msgs.len() as u8], DhAlg::X25519, c, HashAlg::Sha512).unwrap());
             }
-            for p in protos {
+            for (pi, p) in protos.into_iter().enumerate() {
                 for stateless in [false, true] {
                     let plens: Vec<usize> = if quick { vec![0, 1, 17, 64] } else { vec![0, 1, 16, 17, 64, 255] };
                     for pl in plens {
-                        cases.push((p.clone(), b, stateless, pl, 1));
+                        cases.push((p.clone(), b, stateless, pl, 1, 0));
+                        // backends branch on the size of the output buffer: the un-modified pattern again with tight buffers
+                        if pi == 0 {
+                            cases.push((p.clone(), b, stateless, pl, 1, 1));
+                            cases.push((p.clone(), b, stateless, pl, 1, 2));
+                        }
                     }
                 }
             }
         }
         // one large message per cipher/backend
         let p = Proto::new(&base[8], &[], DhAlg::X25519, c, HashAlg::Sha256).unwrap();
-        cases.push((p.clone(), b, false, 65519, 1));
-        cases.push((p, b, true, 65519, 1));
+        cases.push((p.clone(), b, false, 65519, 1, 0));
+        cases.push((p, b, true, 65519, 1, 1));
     }
-    cases.par_iter().for_each(|(p, b, stateless, pl, stride)| {
+    cases.par_iter().for_each(|(p, b, stateless, pl, stride, rcap)| {
         let cfg = session_cfg(p, *b, 0);
-        let ops = ops_for(p, *b, *stateless, *pl, *stride);
+        let mut ops = ops_for(p, *b, *stateless, *pl, *stride);
+        if *rcap != 0 {
+            let cap = if *rcap == 1 { Cap::NeedPlus(0) } else { Cap::NeedPlus(9) };
+            for op in ops.iter_mut() {
+                match op {
+                    Op::TRead { cap: c, .. } | Op::SRead { cap: c, .. } => *c = cap.clone(),
+                    _ => {},
+                }
+            }
+        }
         let e = Exec::run(&cfg, &ops);
         ctx.add(&ctx.evaluations, e.steps.len() as u64);
         ctx.add(&ctx.transitions, e.steps.len() as u64);
@@ -304,7 +319,7 @@ pub fn run(tier: Tier) -> i32 {
             Err(e) => ctx.note(format!("shuttle-mapped copy not explored: {e} (not a verdict)")),
         }
     }
-    let (p0, b0, s0, pl0, st0) = &cases[0];
+    let (p0, b0, s0, pl0, st0, _) = &cases[0];
     let o0 = ops_for(p0, *b0, *s0, *pl0, *st0);
     ctx.sample(json!({"name": p0.name, "backend": b0, "ops_head": &o0[..8.min(o0.len())], "ops_total": o0.len()}));
     ctx.set("nonce_alphabet", json!(nonces().len()));
